@@ -73,7 +73,7 @@ class CT:
 
 
 class Sched:
-    def __init__(self, policy, max_steps=600000, watchdog=30.0):
+    def __init__(self, policy, max_steps=600000, watchdog=45.0):
         self.policy = policy
         self.threads = []              # CTs in creation order
         self.by_ident = {}
@@ -443,6 +443,8 @@ class FakeSocket:
 
     def accept(self):
         s = _CURRENT
+        if self.backlog is None:
+            raise OSError(22, 'Invalid argument')          # accept() on a socket that is not listening
         if s:
             s.yield_op(Op('accept', self, enabled=lambda: len(self.backlog) > 0))
         conn = self.backlog.popleft()
@@ -548,10 +550,16 @@ def _start(self):
     conn = getattr(self, 'connection', None)
     peer = getattr(conn, 'peer_label', None)
     label = ('seat:' + peer) if peer else s.new_label('thread')
-    s.register(self, label).parent = s.cur()
+    ct = s.register(self, label)
+    ct.parent = s.cur()
+    try:
+        self.daemon = True
+        _real_start(self)
+    except BaseException:
+        # e.g. Thread.__init__ was never called: start() raises in the code under test and no thread exists
+        s.threads.remove(ct)
+        raise
     s.log('start', label)
-    self.daemon = True
-    _real_start(self)
 
 
 def _join(self, timeout=None):
@@ -598,7 +606,7 @@ def install():
     _installed = True
 
 
-def new_run(policy, max_steps=600000, watchdog=30.0):
+def new_run(policy, max_steps=600000, watchdog=45.0):
     """fresh scheduler + fresh network"""
     global _CURRENT, NET
     NET = Net()
